@@ -1,6 +1,6 @@
 use super::{
-    parse_delimited, parse_optional, parse_token, DocComment, Error, Ident, Lookahead, PackagePath,
-    Parse, ParseResult, Peek,
+    parse_delimited, parse_nested, parse_optional, parse_token, DocComment, Error, Ident,
+    Lookahead, PackagePath, Parse, ParseResult, Peek,
 };
 use crate::lexer::{Lexer, Token};
 use miette::SourceSpan;
@@ -695,6 +695,12 @@ impl Type<'_> {
 
 impl<'a> Parse<'a> for Type<'a> {
     fn parse(lexer: &mut Lexer<'a>) -> ParseResult<Self> {
+        parse_nested(lexer, Self::parse_type)
+    }
+}
+
+impl<'a> Type<'a> {
+    fn parse_type(lexer: &mut Lexer<'a>) -> ParseResult<Self> {
         let mut lookahead = Lookahead::new(lexer);
         if lookahead.peek(Token::U8Keyword) {
             Ok(Self::U8(lexer.next().unwrap().1))
